@@ -64,6 +64,9 @@ def _match_entries(entries, site, facts=None):
     fn = strip_generics(site.fn)
     fns = [fn]
     if facts is not None:
+        succ = getattr(facts, "successors", {}) or {}
+        if fn in succ:
+            fns.append(succ[fn])
         fns += sorted(facts.owners_of(fn) - {fn})
     base = M.show(site.ops[0]) if site.ops and "index" in site.kind else ""
     exact, loose = [], []
@@ -169,6 +172,7 @@ def run(run, ctx, fns, label, restrict=None):
         finfo = ctx.facts.fns.get(fnpath, {})
         for callee, bi, t in ctx.cg.calls.get(fnpath, []):
             cs = strip_generics(callee)
+            cs = (getattr(ctx.facts, "successors", {}) or {}).get(cs, cs)
             if cs not in pre:
                 continue
             p = pre[cs]
